@@ -200,6 +200,23 @@ CLAIMED = {
              "standard axioms, the AST pattern matcher of translate_copy.py (validated against observed identity every run).",
         technique="Lean 4 proof (heap frame theorem + generated copy specification) + object-graph walker and edit histories on the real code",
         design="DESIGN.md section 5, C12"),
+    "C13": dict(
+        engine="effects",
+        text="Lean 4: a statement language for what an analysis does to the model it was given (context-aware write, in-place write, own `with model:`, "
+             "try/finally, exception points, work on a copy, branches, loops), a big-step semantics with exceptions over a state holding the installed "
+             "object per component, object contents and the stack of open contexts with their undo records (the caller's at the bottom), and the "
+             "soundness theorem leaves_model_as_found: every execution of a statement passing the syntactic check Safe — returning or raising at any "
+             "point, inside or outside caller contexts — leaves every component, every pre-existing object's content and the caller's contexts as they "
+             "were. all_analyses_safe: decide over Gen/EffectTable.lean, the summaries of 25 analyses and of every cobra helper they call, regenerated "
+             "from the source (Python ast) on every run. The translation is validated at run time (every kind of write observed through wrapped "
+             "cobrapy / optlang primitives must be in the generated summary) and the real analyses are run on generated feasible / infeasible / unbounded "
+             "models with argument combinations, inside / outside user contexts, 1 or 2 processes, twice each, with the full observable state "
+             "before and after (content, raw GLPK problem, tolerances, gene states, caller's context history).",
+        note="Trusted: Lean kernel, standard axioms, the translator's stated approximations (try/except as body then optional handler; the explicit "
+             "direction save/restore of Model.optimize rendered as a private context; cobrapy's context-aware setters as primitives; element-level "
+             "freshness of solver objects decided by the translator). Cases in which GLPK aborts the process are counted, not judged.",
+        technique="Lean 4 proof (soundness of an effect check + generated effect summaries) + run-time validation of the translation + state comparison on the real code",
+        design="DESIGN.md section 5, C13"),
 }
 
 PENDING_REASON = "check under construction in this session (see DESIGN.md section 9 build order); not claimed until its Lean model, theorems and correspondence exist"
@@ -246,6 +263,8 @@ def main():
              "kind_free_text": "rich model generator / dump, Lean DictIO and SbmlId models + drivers, round trips through every format"},
             {"name": "copy", "path": "harness/c12.py", "serves_properties": ["C12"],
              "kind_free_text": "translate_copy.py (AST of Model.copy -> Gen/CopySpec.lean), object-graph walker, edit histories on original and copy"},
+            {"name": "effects", "path": "harness/c13.py", "serves_properties": ["C13"],
+             "kind_free_text": "translate_effects.py (AST of the analyses -> Gen/EffectTable.lean), run-time write recorder, before/after state comparison in isolated child processes"},
             {"name": "gpr", "path": "harness/c08.py", "serves_properties": ["C08"],
              "kind_free_text": "Lean model GPRM (rule trees, parser, remover) + generated escape tables + correspondence against cobra.core.gene.GPR"},
         ],
